@@ -169,6 +169,7 @@ func genC06(r *core.Rand, env *core.Env, run int) *Scenario {
 	aim := run%8 == 7
 	g := newLsGen(r, env, "c0:", 1, aim)
 	g.timeOK = true
+	g.steps = append(g.steps, Step{Kind: "sleep", Sleep: 500 * time.Millisecond})
 	g.keys = keyPool(r, g.prefix, 1+r.Intn(3), true)
 	eps := 20 * time.Millisecond
 	rounds := 1 + r.Intn(3)
